@@ -980,13 +980,21 @@ class TunnelCommunity(Community):
         This method is usually implemented in subclasses of this community.
         """
 
-    def on_data(self, sock_addr: Address, data: bytes, _: int | None) -> None:
+    def on_data(self, sock_addr: Address, data: bytes, from_circuit_id: int | None) -> None:
         """
         Callback for when we receive a DataPayload out of a circuit.
 
         Data is readable only if this handler is (a) an exit node or (b) the one that created the circuit.
         """
         payload, _ = self.serializer.unpack_serializable(DataPayload, data, offset=23)
+
+        # A data message that was itself tunnelled to us as the data of one of our circuits (see the handling of
+        # "Incoming packet meant for us" below) names whatever circuit its outside sender chose and was not
+        # authenticated with that circuit's keys: it may not pose as traffic of another circuit.
+        if from_circuit_id is not None and payload.circuit_id != from_circuit_id:
+            self.logger.warning("Dropping data for circuit %d that arrived through circuit %d",
+                                payload.circuit_id, from_circuit_id)
+            return
 
         # If it's our circuit, the messenger is the candidate assigned to that circuit and the DATA's destination
         # is set to the zero-address then the packet is from the outside world and addressed to us from.
